@@ -494,10 +494,14 @@ def _leeds(ctx, pkg):
         z = simp(inc[0].loops[0].iter)
         if len(z[2]) == 2:
             labels, widths = lit(z[2][0]), lit(z[2][1])
+    # independent of the idiom: the columns each attribute is decoded from, computed by unrolling the loop over the (literal) tables
+    by_columns = _leeds_columns(ctx, pkg, fn, file)
     if not inc or labels is None or widths is None:
-        # not the cursor idiom (one loop over zip(labels, widths) advancing a column cursor): another way of cutting the record --
-        # prefix sums, slices by table -- is not decided by this rule
-        ctx.unrec("R4", "Leeds:layout", (file, fn.lineno), "the Leeds record is not cut by the reviewed cursor idiom (for label, width in zip(..): clip = line[cursor:cursor+width]; cursor += width)")
+        # not the cursor idiom (one loop over zip(labels, widths) advancing a column cursor)
+        if not by_columns:
+            ctx.unrec("R4", "Leeds:layout", (file, fn.lineno), "the Leeds record is neither cut by the reviewed cursor idiom (for label, width in zip(..): clip = line[cursor:cursor+width]; "
+                                                              "cursor += width) nor by a loop over literal column tables that can be unrolled")
+        _leeds_prefix(ctx, fl, file)
         return
     ctx.check(labels == LEEDS_LABELS, "R3", "Leeds:labels", (file, fn.lineno), "the nine fields of a Leeds record, in file order", expected=str(LEEDS_LABELS), found=str(labels))
     ctx.check(widths == LEEDS_WIDTHS and sum(widths or []) == 125, "R4", "Leeds:widths", (file, fn.lineno),
@@ -524,6 +528,10 @@ def _leeds(ctx, pkg):
     for lab, attr in LEEDS_ATTR.items():
         got = seen.get(lab, set()) - {"reaction_type"}
         ctx.check(got == {attr}, "R5", f"Leeds:{lab}->{attr}", (file, fn.lineno), f"field `{lab}` feeds self.{attr}", expected=attr, found=str(sorted(got)))
+    _leeds_prefix(ctx, fl, file)
+
+
+def _leeds_prefix(ctx, fl, file):
     # species of ice are spelled with the prefix G in this format
     n = 0
     for f in fl.facts:
@@ -532,6 +540,156 @@ def _leeds(ctx, pkg):
             s = show(simp(f.value))
             ctx.check("surface_prefix='G'" in s, "R5", f"Leeds:{f.target}:surface prefix", (file, f.line), "Leeds names are parsed with the surface prefix 'G'", found=s[:100])
     ctx.floor("R5", "Leeds species stores", n, 2)
+
+
+def _static_pairs(fn, loop):
+    """literal ((label, width), ...) a for-loop iterates over: a literal sequence of pairs, zip of two literal sequences, or locals
+    bound exactly once in the function to such literals; None otherwise"""
+    once = {}
+    for n in ast.walk(fn):
+        if isinstance(n, ast.Name) and isinstance(n.ctx, (ast.Store, ast.Del)):
+            once[n.id] = once.get(n.id, 0) + 1
+    bound = {a.targets[0].id: a.value for a in ast.walk(fn) if isinstance(a, ast.Assign) and len(a.targets) == 1 and isinstance(a.targets[0], ast.Name)
+             and once.get(a.targets[0].id) == 1 and a.lineno < loop.lineno}
+    mutated = {c.func.value.id for c in ast.walk(fn) if isinstance(c, ast.Call) and isinstance(c.func, ast.Attribute) and isinstance(c.func.value, ast.Name)
+               and c.func.attr in ("append", "extend", "insert", "remove", "pop", "clear", "sort", "reverse")}
+    mutated |= {t.value.id for a in ast.walk(fn) if isinstance(a, (ast.Assign, ast.AugAssign)) for t in (a.targets if isinstance(a, ast.Assign) else [a.target])
+                if isinstance(t, ast.Subscript) and isinstance(t.value, ast.Name)}
+
+    def lit(e):
+        if isinstance(e, ast.Name) and e.id in bound and e.id not in mutated:
+            e = bound[e.id]
+        if isinstance(e, (ast.List, ast.Tuple)) and e.elts and not any(isinstance(x, ast.Starred) for x in e.elts):
+            return e
+        return None
+    it = loop.iter
+    if isinstance(it, ast.Call) and isinstance(it.func, ast.Name) and it.func.id == "zip" and len(it.args) == 2 and not it.keywords:
+        a, b = lit(it.args[0]), lit(it.args[1])
+        if a is None or b is None or len(a.elts) != len(b.elts):
+            return None
+        rows = [ast.Tuple(elts=[x, y], ctx=ast.Load()) for x, y in zip(a.elts, b.elts)]
+    else:
+        a = lit(it)
+        if a is None:
+            return None
+        rows = list(a.elts)
+    if not all(isinstance(r, ast.Tuple) and len(r.elts) == 2 and all(isinstance(x, ast.Constant) for x in r.elts) for r in rows):
+        return None
+    return ast.Tuple(elts=rows, ctx=ast.Load())
+
+
+def _leeds_columns(ctx, pkg, fn, file):
+    """The record columns each attribute of a Leeds reaction is decoded from (DESIGN Appendix C), whatever the way the line is cut:
+    the loop over the literal (label, width) table(s) is unrolled (sa.normalize), the cursor arithmetic folded, a dict of named
+    clips read back, and every `self.<attr> = conv(line[a:b]...)` compared with the published columns.  -> True when the layout
+    could be decided this way (obligations R4 'Leeds:<attr>:columns' emitted), False when the function has no such loop."""
+    import copy
+    from ..normalize import _unroll_one
+    new = copy.deepcopy(fn)
+    done = 0
+
+    def rewrite(stmts):
+        nonlocal done
+        out = []
+        for st in stmts:
+            for fld in ("body", "orelse", "finalbody"):
+                b = getattr(st, fld, None)
+                if isinstance(b, list) and b and isinstance(b[0], ast.stmt):
+                    setattr(st, fld, rewrite(b))
+            if isinstance(st, ast.For) and isinstance(st.target, ast.Tuple) and len(st.target.elts) == 2:
+                seq = _static_pairs(new, st)
+                un = _unroll_one(st, seq) if seq is not None else None
+                if un is not None:
+                    for u in un:
+                        ast.fix_missing_locations(u)
+                    out.extend(un)
+                    done += 1
+                    continue
+            out.append(st)
+        return out
+    new.body = rewrite(new.body)
+    if done != 1:
+        return False
+    fl = Flow(new, file)
+    LINE = ("param", "react_string")
+
+    def fold(v):
+        if not isinstance(v, tuple) or not v:
+            return v
+        v = tuple(fold(x) if isinstance(x, tuple) else x for x in v)
+        if v[0] == "binop" and v[1] in ("Add", "Sub", "Mult") and v[2][0] == "const" and v[3][0] == "const" and isinstance(v[2][1], int) and isinstance(v[3][1], int) \
+                and not isinstance(v[2][1], bool) and not isinstance(v[3][1], bool):
+            return ("const", {"Add": v[2][1] + v[3][1], "Sub": v[2][1] - v[3][1], "Mult": v[2][1] * v[3][1]}[v[1]])
+        # s[a:][:n] is s[a:a+n]
+        NONE = ("const", None)
+        if v[0] == "sub" and v[2][0] == "slice" and v[2][1] in (NONE, ("const", 0)) and v[2][3] == NONE and v[2][2][0] == "const" and isinstance(v[2][2][1], int) and v[2][2][1] >= 0 \
+                and v[1][0] == "sub" and v[1][2][0] == "slice" and v[1][2][2] == NONE and v[1][2][3] == NONE and v[1][2][1][0] == "const" and isinstance(v[1][2][1][1], int) and v[1][2][1][1] >= 0:
+            a_ = v[1][2][1][1]
+            return ("sub", v[1][1], ("slice", ("const", a_), ("const", a_ + v[2][2][1]), NONE))
+        return v
+
+    def live(f):
+        """False when a guard of the fact compares two different constants (an arm of the unrolled label chain that belongs to another label)"""
+        for g, pol in f.guards:
+            g = simp(g)
+            if g[0] == "cmp" and g[1] == ("Eq",) and g[2][0][0] == "const" and g[2][1][0] == "const" and (g[2][0][1] == g[2][1][1]) != pol:
+                return False
+        return True
+    # named clips: D[<label>] = <slice of the line>, read back as D[<label>]
+    named = {}
+    for f in fl.facts:
+        if f.kind == "store" and f.index is not None and f.index[0] == "const" and not f.loops and live(f):
+            named.setdefault((f.target, f.index), []).append(f)
+
+    def resolve(v, seq, depth=0):
+        if not isinstance(v, tuple) or not v or depth > 4:
+            return v
+        if v[0] == "sub" and v[1][0] == "acc" and v[2][0] == "const":
+            st = [f for f in named.get((v[1][1], v[2]), []) if f.seq < seq]
+            if len(st) == 1 and len(named[(v[1][1], v[2])]) == 1:
+                return resolve(st[0].value, seq, depth + 1)
+        return tuple(resolve(x, seq, depth) if isinstance(x, tuple) else x for x in v)
+    start = 0
+    want = {}
+    for lab, w in zip(LEEDS_LABELS, LEEDS_WIDTHS):
+        want[LEEDS_ATTR[lab]] = (start, start + w)
+        start += w
+    conv = {"idxfromfile": "int", "rtype": "int", "alpha": "float", "beta": "float", "gamma": "float", "temp_min": "float", "temp_max": "float"}
+    n = 0
+    for attr, (a, b) in want.items():
+        st = [f for f in fl.facts if f.kind == "attrstore" and f.target == attr and f.extra.get("obj") == SELF and live(f)]
+        key = f"Leeds:{attr}:columns"
+        if len(st) != 1:
+            ctx.unrec("R4", key, (file, fn.lineno), f"expected one store into self.{attr}, found {len(st)}")
+            continue
+        f = st[0]
+        v = fold(simp(resolve(simp(f.value), f.seq)))
+        cuts = {x for x in walk(v) if isinstance(x, tuple) and len(x) == 3 and x[0] == "sub" and x[1] == LINE and x[2][0] == "slice"}
+        if len(cuts) != 1 or any(isinstance(x, tuple) and x and x[0] in ("acc", "carried", "after", "unknown") for x in walk(v)):
+            cond = [x for x in walk(v) if isinstance(x, tuple) and x and x[0] == "phi"]
+            if len(cuts) >= 1 and cond and not any(isinstance(x, tuple) and x and x[0] in ("acc", "carried", "after", "unknown") for x in walk(v)):
+                ctx.bad("R4", key, (file, f.line), f"the columns self.{attr} is cut from depend on a condition ({show(cond[0][1])[:60]}): the column cursor does not advance once per field",
+                        expected=f"line[{a}:{b}]", found=show(v)[:120])
+            else:
+                ctx.unrec("R4", key, (file, f.line), f"cannot reduce the value of self.{attr} to one slice of the record: {show(v)[:120]}")
+            continue
+        cut = cuts.pop()
+        lo, hi = cut[2][1], cut[2][2]
+        got = (lo[1] if lo[0] == "const" and lo[1] is not None else 0 if lo == ("const", None) else None, hi[1] if hi[0] == "const" else None)
+        if got[0] is None or not isinstance(got[1], int):
+            ctx.unrec("R4", key, (file, f.line), f"the slice bounds of self.{attr} are not constants after unrolling: {show(cut)[:100]}")
+            continue
+        n += 1
+        okc = got == (a, b)
+        # conversion: numeric attributes through int / float of the clip (the type code drops its first character)
+        shape = True
+        if attr in conv:
+            inner = ("sub", cut, ("slice", ("const", 1), ("const", None), ("const", None))) if attr == "rtype" else cut
+            shape = v == ("call", ("global", conv[attr]), (inner,), ())
+        ctx.check(okc and shape, "R4", key, (file, f.line), f"self.{attr} is decoded from columns {a + 1}-{b} of the 125-column record" + ("" if shape else f" through {conv.get(attr)}()"),
+                  expected=f"{conv.get(attr, '')}(line[{a}:{b}]{'[1:]' if attr == 'rtype' else ''})", found=show(v)[:120])
+    ctx.floor("R4", "Leeds attributes with decided columns", n, 9, (file, fn.lineno))
+    return True
 
 
 # ------------------------------------------------------------------ R6
@@ -614,4 +772,11 @@ BENIGN += [
         {"file": UC, "old": 'kwlist = [*self.reactant2type.keys(), "NAN"]', "new": 'kwlist = list(self.reactant2type) + ["NAN"]'}]},
     {"name": "umist-record-named-first", "file": U, "old": '            idx, code, *rps, _, a, b, c, lt, ut = react_string.split(":")[:14]\n', "new": '            columns = react_string.split(":")[:14]\n            idx, code, *rps, _, a, b, c, lt, ut = columns\n'},
     {"name": "kida-tail-named-first", "file": K, "old": "            a, b, c, _, _, _, itype, lt, ut, form, idx, _, _ = react_string[\n                rlen + plen :\n            ].split()\n", "new": "            numbers = react_string[rlen + plen :].split()\n            a, b, c, _, _, _, itype, lt, ut, form, idx, _, _ = numbers\n"},
+]
+MUTANTS += [
+    {"name": "leeds-clip-starts-one-late", "file": L, "old": "clip = react_string[stidx : stidx + len]", "new": "clip = react_string[stidx + 1 : stidx + len]", "rules": ["R4"]},
+    {"name": "leeds-type-code-keeps-first-char", "file": L, "old": "self.rtype = int(clip[1:])", "new": "self.rtype = int(clip)", "rules": ["R4"]},
+]
+BENIGN += [
+    {"name": "leeds-clip-by-length", "file": L, "old": "clip = react_string[stidx : stidx + len]", "new": "clip = react_string[stidx:][:len]"},
 ]
